@@ -185,6 +185,17 @@ def cases(tier):
         yield "alias", ("alias", "T", k)
 
 
+def _unordered(x):
+    """A fingerprint with the entries of every key table sorted (where `...: ...` sits in the
+    table of a sum is not part of what the sum means)."""
+    if isinstance(x, tuple):
+        y = tuple(_unordered(e) for e in x)
+        if y and y[0] == "dict":
+            return ("dict",) + tuple(sorted(y[1:], key=repr))
+        return y
+    return x
+
+
 def judge(label, t, tier, acc, rng):
     b = Builder(track=True)
     try:
@@ -215,6 +226,25 @@ def judge(label, t, tier, acc, rng):
                 found.append((f"C13|{label}|operand-changed-by-the-combination", f"{show(ot)} on {src(v)}"))
                 break
     if label in ("add", "mkreq"):
+        # equivalent spellings: d1 + d2 / make_required(d, keys) is the dict one would have written
+        # out (the model's resolved key table), structurally and under ==
+        try:
+            lit = M.resolve(t)
+            twin, err = try_build(lit)
+        except M.ModelGap:
+            twin, err = None, None
+        if twin is not None:
+            try:
+                if _unordered(fp(twin)) != _unordered(fp(s)):
+                    found.append((f"C13|{label}|differs-from-the-written-out-dict", ""))
+                elif not (twin == s) or (twin != s) or not (s == twin):
+                    found.append((f"C13|{label}|not-equal-to-the-written-out-dict", ""))
+            except Exception as e:  # noqa: BLE001
+                found.append((f"C13|{label}|written-out-dict-eq-raises:{type(e).__name__}", ""))
+        if label == "mkreq" and t[2] is None and twin is not None:
+            every = b.build(("mkreq", t[1], tuple(k for k, _, _ in (M.resolve(t[1])[1] or ()))))
+            if _unordered(fp(every)) != _unordered(fp(s)):
+                found.append(("C13|mkreq|default-differs-from-listing-every-key", ""))
         ex = exposes(t, s, b)
         if ex:
             found.append((f"C13|{label}|{ex}", ""))
@@ -227,6 +257,20 @@ def judge(label, t, tier, acc, rng):
                 pass
             except Exception as e:  # noqa: BLE001
                 found.append((f"C13|mkreq|nonexisting-key-raises:{type(e).__name__}", ""))
+    if label in ("or", "or-left", "or-right"):
+        # equivalent spellings: a | b is schema.any(a, b) - the same structure, not just the same
+        # verdicts (bracketing included: unions flatten)
+        def as_any(x):
+            return ("any", (as_any(x[1]), as_any(x[2]))) if x[0] == "or" else x
+        twin, err = try_build(as_any(t))
+        if twin is None or fp(twin) != fp(s):
+            found.append((f"C13|{label}|operator-differs-from-schema.any", repr(err)[:80] if twin is None else ""))
+        else:
+            try:
+                if not (twin == s) or (twin != s) or repr(twin) != repr(s):
+                    found.append((f"C13|{label}|operator-result-not-equal-to-schema.any", ""))
+            except Exception as e:  # noqa: BLE001
+                found.append((f"C13|{label}|operator-vs-any-eq-raises:{type(e).__name__}", ""))
     if label in ("or", "any", "or-left", "or-right", "any3", "any-nested"):
         want = M.resolve(t)[1]
         try:
